@@ -30,6 +30,12 @@
                 `isClosedConnError` recognises / another one) and wu wd (its Write fails: the destination is gone)
         → ok phase= up= down= eofU= eofD= finU= finD= shownU= shownD= failedU= failedD= grace= closed= expired=
              availU= availD=   |   stuck <index>
+    copyloop <bytes|error|-> <bytes|error|-> <results>   the copy loop over what the source's `Read` calls return
+        first two fields: the order of the source's WriteTo / the destination's ReadFrom (`-` = the leg has none:
+        io.CopyBuffer's own loop); results = `;`-separated: d:<hex> (n>0, nil)  de:<hex> (n>0, io.EOF)  e (0, io.EOF)
+        x:<hex> (n≥0, another error)
+        → ok written=<hex> returned=0|1 clean=0|1 handed=<hex> same-split=0|1 same-joined=0|1
+          (same-…: the loop's outcome on the other encoding of the stream's end is the same)
 -/
 import FwdVerif.Model.C03
 
@@ -70,6 +76,20 @@ def runIdx (c : Cfg) : State → List Step → Nat → Except Nat State
     match step c s st with
     | none => .error i
     | some s' => runIdx c s' rest (i + 1)
+
+def decodeLoopOrder : String → Option (Option LoopOrder)
+  | "-" => some none
+  | "bytes" => some (some .bytesFirst)
+  | "error" => some (some .errorFirst)
+  | _ => none
+
+def decodeReadRes (s : String) : Option ReadRes :=
+  match s.splitOn ":" with
+  | ["d", x] => (bytesOfHex x).map .data
+  | ["de", x] => (bytesOfHex x).map .dataEof
+  | ["e"] => some .eof
+  | ["x", x] => (bytesOfHex x).map .dataErr
+  | _ => none
 
 def decodeTStep (s : String) : Option TStep :=
   match s.splitOn ":" with
@@ -235,6 +255,15 @@ def handle : List String → String
       let o : Obs := { up := u, down := d, closedC := cc, closedT := ct }
       if acceptL L o then "true" else s!"false {rejectReasonL L o}"
     | _, _, _, _, _ => "bad-op"
+  | ["copyloop", wt, rf, results] =>
+    match decodeLoopOrder wt, decodeLoopOrder rf, (splitList2 results).mapM decodeReadRes with
+    | some wt, some rf, some rs =>
+      let fp : FastPaths := { srcWriteTo := wt, dstReadFrom := rf }
+      let o := copyBuffer fp rs
+      s!"ok written={hexOfBytes o.written} returned={ofBool o.returned} clean={ofBool o.clean} " ++
+      s!"handed={hexOfBytes (handedOver rs)} same-split={ofBool (decide (copyBuffer fp (splitEnds rs) = o))} " ++
+      s!"same-joined={ofBool (decide (copyBuffer fp (joinEnds rs) = o))}"
+    | _, _, _ => "bad-op"
   | ["run", cfg, steps] =>
     match decodeCfg cfg, decodeSteps steps with
     | some c, some sts =>
